@@ -21,8 +21,28 @@ THEOREMS = [
     "WM.C13.range_query_float_unsigned",
     "WM.C13.reject", "WM.C13.reject_float",
     "WM.C13.datetime", "WM.C13.decimal",
+    "WM.C13.range_query_float_numeric_partial", "WM.C13.range_query_float_numeric_full_false",
+    "WM.C13.decimal_monotone", "WM.C13.decimal_bound_partial", "WM.C13.decimal_bound_full_false",
+    "WM.C13.range_query_datetime",
 ]
-PARTIAL = {}
+PARTIAL = {
+    "WM.C13.range_query_float_numeric_partial":
+        "full statement `range_query_float_numeric_full` (float range query = numeric membership with Python's "
+        "< / <= for every pattern) is false and refuted by `range_query_float_numeric_full_false`: the sortable "
+        "encoding orders doubles by the IEEE total order, so a -0.0 document is outside [0.0 TO x] (and +0.0 "
+        "outside [x TO -0.0]) and a NaN document is inside an open-ended range on its side; the partial theorem "
+        "excludes NaN values/bounds and a zero value facing a zero bound of the opposite sign "
+        "(`range_query_float` states the exact behaviour under the total order for all patterns); recorded as "
+        "findings with deterministic probes",
+    "WM.C13.decimal_bound_partial":
+        "full statement `decimal_bound_full` (a Decimal range bound with any number of places is exact) is false "
+        "and refuted by `decimal_bound_full_false`: prepare_number truncates towards zero, so a positive lower "
+        "bound / negative upper bound with more than decimal_places digits moves outwards ([0.005 TO ..] with "
+        "dc=2 admits 0.00; by contraposition an exclusive positive upper bound moves inwards: [.. TO 0.005} drops "
+        "0.00); proved: exact for bounds with <= dc places, exact for `x <= bound` (hence `x > bound`) when the "
+        "bound is >= 0 and for `bound <= x` (hence `x < bound`) when it is <= 0, and monotone "
+        "(`decimal_monotone`); recorded as a finding with a deterministic probe",
+}
 RULE = ("split_ranges: exhaustive over 8 bits (every step 1..8, every start<=end) plus boundary-biased "
         "(n, step, start, end) for n in {1..64}; non-trivial = more than one range emitted. "
         "tiered/compile/codec streams: non-trivial = an exclusive or open end, a domain limit, a negative, "
@@ -32,6 +52,12 @@ RULE = ("split_ranges: exhaustive over 8 bits (every step 1..8, every start<=end
 ASSUMPTIONS = [
     "a double is represented by its 64-bit pattern; struct packing of doubles/ints and IEEE comparison of "
     "non-NaN doubles agreeing with totalOrder (up to -0.0 < +0.0) are Python's and only checked by sampling",
+    "the random end-to-end float stream uses the IEEE total order of the Lean spec as oracle (what the encoding "
+    "implements, theorem range_query_float); where it differs from numeric membership (signed zeros, NaN) the "
+    "numeric reading is checked by deterministic probes and reported as KNOWN-FINDING "
+    "(theorems range_query_float_numeric_partial / _full_false)",
+    "qparser/dateparse.py (the DateParserPlugin grammar) is neither modelled nor exercised here; DATETIME's own "
+    "_parse_datestring / parse_range / parse_query are exercised end-to-end only (regex/calendar layer trusted)",
     "the proleptic Gregorian calendar arithmetic of datetime/timedelta is Python's; the model starts from the "
     "normalised (days, seconds, microseconds) triple",
     "Decimal parsing/arithmetic is Python's; the model works on exact rationals",
@@ -53,7 +79,11 @@ MANIFEST = {
                   "boundary-biased runs for wider domains, and real index/search end-to-end runs against the Lean "
                   "interval/order specification.",
     "level_note": "Trusted: Lean kernel + propext/Quot.sound/Classical.choice; struct/datetime/decimal of CPython; "
-                  "the hand-written model mirrors the code as far as the differential runs show.",
+                  "the hand-written model mirrors the code as far as the differential runs show. Two statements are "
+                  "partial and declared: float ranges equal *numeric* membership only away from signed-zero clashes "
+                  "and NaN (exact under the IEEE total order everywhere), Decimal range bounds are exact only with at "
+                  "most decimal_places digits (or on the side truncation does not move); both full statements are "
+                  "refuted in Lean and reported as KNOWN-FINDING by deterministic probes.",
     "technique": "machine-checked proof in Lean 4 over an executable model + differential correspondence check "
                  "against the implementation",
 }
@@ -72,6 +102,9 @@ SIG_FLOAT_SORTABLE = "NUMERIC(float,sortable=True).add_document:struct.error-fro
 SIG_DT = "long_to_datetime(datetime_to_long(dt))!=dt"
 SIG_DEC = "NUMERIC(decimal).unprepare_number(prepare_number(d))!=d"
 SIG_FSORT = "float-sortable:order!=python-float-order"
+SIG_ZERO = "NumericRange(float):zero-bound-vs-zero-value-of-opposite-sign(-0.0<+0.0-in-sortable-order)"
+SIG_NAN = "NumericRange(float):NaN-document-matched-by-open-ended-range"
+SIG_DECTRUNC = "NumericRange(decimal):bound-with-more-than-decimal_places-digits-truncated-towards-zero"
 
 
 def _b(x):
@@ -751,6 +784,8 @@ def _shrink_range(ctx, rec):
     sig, case, e, o = rec
     if case.get("stream") != "e2e-range" or not isinstance(o, list):
         return rec
+    if sum(1 for v in ctx.violations if v["signature"] == sig) >= 3:
+        return rec      # the framework keeps three cases per signature: do not spend time shrinking more
     diff = sorted(set(e) ^ set(o))
     if not diff or len(case["docs"]) <= len(diff):
         return rec
@@ -913,6 +948,101 @@ def _float_sortable_probe(ctx):
             ctx.violation(rec[0], rec[1], rec[2], rec[3], "column-backed float field vs Lean interval/order spec")
 
 
+
+# ================================================================================================
+# 5. numeric reading of float and Decimal ranges (deterministic probes; Lean oracle = numeric membership)
+
+def _rat(x):
+    n, d = x.as_integer_ratio()
+    return "%d/%d" % (n, d) if d != 1 else "%d" % n
+
+
+def _probe_cases():
+    """(kind, cfg, docs, bounds) of the three probes."""
+    nz, pz = -0.0, 0.0
+    fcfg = lambda step: {"kind": "float", "bits": 64, "signed": True, "step": step, "sortable": False, "dc": 0}
+    out = []
+    for step in (4, 0):
+        out.append(("zero", fcfg(step), [[nz], [pz], [1.0], [-1.0], [5e-324], [-5e-324], [nz, 1.0]],
+                    [None, pz, nz, 1.0, -1.0]))
+        out.append(("nan", fcfg(step), [[G.b2f(0x7ff8000000000000)], [G.b2f(0xfff8000000000000)], [1.0],
+                                        [float("inf")], [float("-inf")], [0.0]],
+                    [None, 1.0, float("inf"), float("-inf")]))
+    dcfg = {"kind": "decimal", "bits": 32, "signed": True, "step": 4, "sortable": False, "dc": 2}
+    D = Decimal
+    out.append(("dec", dcfg, [[D("0.00")], [D("0.01")], [D("-0.01")], [D("1.00")], [D("-1.00")], [D("0.99")]],
+                [None, D("0.005"), D("-0.005"), D("0.01"), D("0.999"), D("-0.999"), D("1")]))
+    return out
+
+
+def _probe_expected(ctx, kind, cfg, docs, queries):
+    if kind == "dec":
+        sd = "(" + " ".join("(" + " ".join(_rat(v) for v in vs) + ")" for vs in docs) + ")"
+        lines = ["c13 spec-filter-rat %s %s %s %s %s" % (sd, "none" if a is None else _rat(a), "none" if b is None else _rat(b),
+                                                        _b(sx), _b(ex_)) for (a, b, sx, ex_) in queries]
+    else:
+        sd = "(" + " ".join("(" + " ".join(str(G.f2b(v)) for v in vs) + ")" for vs in docs) + ")"
+        lines = ["c13 spec-filter-num %s %s %s %s %s" % (sd, "none" if a is None else G.f2b(a), "none" if b is None else G.f2b(b),
+                                                        _b(sx), _b(ex_)) for (a, b, sx, ex_) in queries]
+    return [[int(x) for x in t.strip("()").split()] for t in ctx.driver.ask(lines)]
+
+
+def _probe_classify(kind, cfg, docs, q, exp, obs):
+    """Signature of one mismatching query: a known deviation only if *every* differing document is
+    explained by it; anything else comes out under the generic (unlisted) signature."""
+    if not isinstance(obs, list):
+        return SIG_RANGE_EXC
+    a, b, sx, ex_ = q
+    diff = sorted(set(exp) ^ set(obs))
+
+    def zero(x):
+        return x is not None and x == 0
+
+    def explained(i):
+        vs = docs[i]
+        if kind == "zero":
+            # a zero value facing a zero bound of the other sign
+            return any(zero(v) and any(zero(c) and G.f2b(c) != G.f2b(v) for c in (a, b)) for v in vs)
+        if kind == "nan":
+            return any(v != v for v in vs) and i in obs and (a is None or b is None)
+        if kind == "dec":
+            # the only stored value whose membership can flip is the truncation of a bound that has
+            # more digits than the field keeps
+            import decimal as _d
+            unit = Decimal(1).scaleb(-cfg["dc"])
+            trunc = [c.quantize(unit, rounding=_d.ROUND_DOWN) for c in (a, b) if c is not None and c != c.quantize(unit)]
+            return any(v in trunc for v in vs)
+        return False
+    if diff and all(explained(i) for i in diff):
+        return {"zero": SIG_ZERO, "nan": SIG_NAN, "dec": SIG_DECTRUNC}[kind]
+    return SIG_RANGE
+
+
+def _probe_run(ctx, kind, cfg, docs, queries):
+    case = {"cfg": cfg, "docs": docs, "queries": queries, "sort": False, "segments": 1, "path": 0}
+    out = G.run_index_case(case)
+    found = []
+    if out["build"] is not None:
+        return [(SIG_BUILD, {"stream": "probe-" + kind, "cfg": cfg}, "index built", out["build"])]
+    exp = _probe_expected(ctx, kind, cfg, docs, queries)
+    for q, e, o in zip(queries, exp, out["ranges"]):
+        ctx.case(("probe", kind, cfg["step"], _ser_q(cfg, q)), nontrivial=True)
+        if o != e:
+            sig = _probe_classify(kind, cfg, docs, q, e, o)
+            ctx.stat("probe-%s:deviation" % kind)
+            found.append((sig, {"stream": "probe-" + kind, "cfg": cfg, "docs": _ser_docs(cfg, docs), "query": _ser_q(cfg, q)},
+                          e, o))
+        else:
+            ctx.stat("probe-%s:agrees" % kind)
+    return found
+
+
+def _numeric_reading_probes(ctx):
+    for kind, cfg, docs, bounds in _probe_cases():
+        queries = [(a, b, sx, ex_) for a in bounds for b in bounds for sx in (False, True) for ex_ in (False, True)]
+        for (sig, case, e, o) in _probe_run(ctx, kind, cfg, docs, queries):
+            ctx.violation(sig, case, e, o, "real index + real search vs numeric membership (Python <, <=) in the Lean spec")
+
 # ================================================================================================
 
 def _corpus(ctx):
@@ -954,6 +1084,11 @@ def _run_record(ctx, rec):
     if st == "float-sortable":
         r = w_float_sortable(None)
         return [] if r == "ok" else [(SIG_FLOAT_SORTABLE, case, "document indexed", r)]
+    if st in ("probe-zero", "probe-nan", "probe-dec"):
+        cfg = case["cfg"]
+        docs = [[_unser_v(cfg, v) for v in vs] for vs in case["docs"]]
+        q = case["query"]
+        return _probe_run(ctx, st[6:], cfg, docs, [(_unser_v(cfg, q[0]), _unser_v(cfg, q[1]), q[2], q[3])])
     if st == "tiered8":
         args = tuple(case["args"])
         txt, ok = w_tiered8([args])[0]
@@ -1013,7 +1148,7 @@ def _run_record(ctx, rec):
 def run(ctx):
     import time
     for fn in (_corpus, _split_exhaustive, _split_wide, _tiered_exhaustive8, _codec_int, _codec_float, _compile,
-               _datetime, _decimal, _e2e_8bit_dense, _e2e, _reject, _float_sortable_probe):
+               _datetime, _decimal, _e2e_8bit_dense, _e2e, _reject, _float_sortable_probe, _numeric_reading_probes):
         t = time.time()
         fn(ctx)
         ctx.stat("wall_ms:" + fn.__name__.lstrip("_"), int((time.time() - t) * 1000))
